@@ -713,6 +713,10 @@ class Real:
         k = op["op"]
         if k == "noop":
             return
+        if op.get("uuid_of"):
+            # terminal step only: the UUID of another live node
+            u = O[op["uuid_of"]].uuid
+            self.uuid = lambda u=u: u
         if k == "new_ir":
             O[op["id"]] = gt.IR(uuid=self.uuid())
         elif k == "new_mod":
@@ -1200,6 +1204,24 @@ def run_history(ctx, case, gt, prop, nops, regime=None, focus=None,
             probe(ctx, real, model, qs, want)
             ctx.count("check_points")
             ctx.seen("states", model.state_key())
+    if rnd.random() < 0.06 and model.secs and model.ivs:
+        # last step of the history: an interval carrying the UUID of
+        # another node is put into a section. The API's answer is its own
+        # business (today it accepts; a stricter release may refuse), but
+        # after a refusal the interval must not be found by any lookup, and
+        # after acceptance it is a member like any other. Nothing follows
+        # but the final lookups, because two live nodes with one UUID are
+        # outside what C03 covers.
+        if model.blks and rnd.random() < 0.4:
+            op = model.gen_new_blk()
+            op["iv"] = rnd.choice(list(model.ivs))
+        else:
+            op = model.gen_new_iv()
+            op["sec"] = rnd.choice(list(model.secs))
+        op["uuid_of"] = rnd.choice(list(model.ivs) + list(model.secs) +
+                                   list(model.blks))
+        case.ops.append(op)
+        twin_uuid_attach(ctx, real, model, op)
     qs = model.gen_queries(rnd, nqueries * 2, complete_points=True)
     case.ops.append({"op": "probe", "queries": [q_json(q) for q in qs]})
     probe(ctx, real, model, qs, want)
@@ -1210,6 +1232,19 @@ def run_history(ctx, case, gt, prop, nops, regime=None, focus=None,
     ctx.count("check_points")
     ctx.count("history_ops", len(case.ops))
     ctx.seen("nontrivial", [o for o in case.ops if o["op"] != "probe"])
+
+
+def twin_uuid_attach(ctx, real, model, op):
+    if op["uuid_of"] not in real.obj:
+        return
+    try:
+        real.apply(op, model)
+        model.apply(op)
+        ctx.count("terminal_twin_uuid_attach:accepted")
+    except Exception as e:
+        real.obj.pop(op["id"], None)
+        ctx.count("terminal_twin_uuid_attach:refused")
+        ctx.seen("terminal_twin_uuid_refusals", type(e).__name__)
 
 
 # ---------------------------------------------------------------------------
@@ -1282,6 +1317,9 @@ def replay_ops(ctx, gt, ops, prop, seed_str="replay"):
             if prop == "C06":
                 check_extents(ctx, real, model)
             probe(ctx, real, model, [q_obj(j) for j in op["queries"]], want)
+            continue
+        if op.get("uuid_of"):
+            twin_uuid_attach(ctx, real, model, op)
             continue
         observed = real.apply(op, model)
         if observed == "skipped":
